@@ -150,7 +150,10 @@ EXPECTED_MUTABLE = {"polyseed_deps": "src/dependency.c", "reserved_features": "s
                     "polyseed_mul2_table": "src/gf.c", "languages": "src/lang.c"}
 ALLOWED_WRITERS = {"polyseed_deps": {"polyseed_inject"}, "reserved_features": {"polyseed_enable_features"},
                    "polyseed_mul2_table": set(), "languages": set()}
-ALLOWED_LIBC = {"memcpy", "memset", "memcmp", "bsearch", "strcmp", "__assert_fail"}
+# libc functions library code may call directly: pure functions of their arguments / writers of caller-provided buffers only
+# (no hidden state, no clock, no randomness, no allocation, no locale)
+ALLOWED_LIBC = {"memcpy", "memmove", "memset", "memcmp", "memchr", "bsearch", "qsort", "strcmp", "strncmp", "strlen", "strnlen",
+                "strchr", "strrchr", "strcpy", "strncpy", "strcat", "strncat", "abs", "labs", "__assert_fail"}
 
 
 def _static_facts(work):
